@@ -80,7 +80,20 @@ Second == /\ stage = "second"
 SelfStep == /\ stage = "self" /\ gen < MaxS
             /\ dist' = Self(dist, rho) /\ gen' = gen + 1
             /\ UNCHANGED <<rho, stage, aux>>
-Next == First \/ Second \/ SelfStep
+\* selfing continued for ever (single-seed descent to complete inbreeding): every line ends homozygous for one haplotype;
+\* a two-locus heterozygote (a, b) ends as a or b with weight D each and as either recombinant with weight 2 rho each
+\* (Haldane-Waddington: the recombinant share of recombinant inbred lines is R = 2r/(1+2r), here 2 rho / (D + 2 rho));
+\* LimitIsSelfingInvariant below checks this R against the one-generation enumeration instead of trusting the formula
+WInf(g, h, r) == LET a == H1(g)
+                     b == H2(g)
+                 IN (IF h = a THEN D ELSE 0) + (IF h = b THEN D ELSE 0)
+                    + (IF h = HapIx(OA(a), OB(b)) THEN 2 * r ELSE 0) + (IF h = HapIx(OA(b), OB(a)) THEN 2 * r ELSE 0)
+SelfInf(d, r) == Normalise([gp \in 1..NG |-> IF H1(gp) # H2(gp) THEN 0
+                                             ELSE SumTo([g \in 1..NG |-> IF d[g] = 0 THEN 0 ELSE d[g] * WInf(g, H1(gp), r)], NG)])
+SelfForever == /\ stage = "self"
+               /\ dist' = SelfInf(dist, rho) /\ gen' = -1 /\ stage' = "inbred"
+               /\ UNCHANGED <<rho, aux>>
+Next == First \/ Second \/ SelfStep \/ SelfForever
 Spec == Init /\ [][Next]_vars
 
 \* joint distribution of the origins a doubled-haploid line carries at the two loci (indexed by haplotype)
@@ -102,12 +115,19 @@ Closed(k, r) == RMul(RMul(RNorm(<<2 * r, D>>), RNorm(<<D, D + 2 * r>>)),
                      RAdd(<<1, 1>>, RNeg(RMul(RPow(<<1, 2>>, k), RPow(RNorm(<<D - 2 * r, D>>), k)))))
 
 \* ---- properties of the enumeration (evaluated where a doubled haploid can be taken)
-AtSelf == stage = "self"
+AtSelf == stage \in {"self", "inbred"}
 Marg1(o) == SumTo([h \in 1..NH |-> IF OA(h) = o THEN Joint[h] ELSE 0], NH)
 Marg2(o) == SumTo([h \in 1..NH |-> IF OB(h) = o THEN Joint[h] ELSE 0], NH)
 \* two-way: enumerated recombinant fraction = closed recurrence
-EnumerationIsClosedForm == (AtSelf /\ Scheme = "2w") =>
+EnumerationIsClosedForm == (stage = "self" /\ Scheme = "2w") =>
     RNorm(<<Joint[HapIx(0, 1)] + Joint[HapIx(1, 0)], JTotal>>) = Closed(gen + 1, rho)
+\* the limit does not depend on how many generations were enumerated before selfing "for ever" starts: one more enumerated
+\* generation followed by the limit is the limit (this pins R = 2r/(1+2r): no other value satisfies it for 0 < r < 1/2)
+LimitIsSelfingInvariant == stage = "self" => SelfInf(Self(dist, rho), rho) = SelfInf(dist, rho)
+\* completely inbred lines are homozygous, and two-way lines recombine at 2 rho / (D + 2 rho)
+InbredIsHomozygous == stage = "inbred" => \A g \in 1..NG : H1(g) # H2(g) => dist[g] = 0
+InbredTwoWayShare == (stage = "inbred" /\ Scheme = "2w") =>
+    RNorm(<<Joint[HapIx(0, 1)] + Joint[HapIx(1, 0)], JTotal>>) = RNorm(<<2 * rho, D + 2 * rho>>)
 \* Mendelian shares of the origins at each locus: 1/2,1/2 ; 1/2,1/4,1/4 ; 1/4 each
 MarginalShares == AtSelf =>
     /\ \A o \in 0..(K - 1) : Marg1(o) = Marg2(o)
